@@ -81,6 +81,16 @@ class Site:
         return (self.rule, self.func, self.stmt, self.detail)
 
 
+@dataclass
+class CallFact:
+    caller: FunctionInfo
+    node: ast.Call
+    callee: FunctionInfo
+    bound: Dict[str, K]
+    env: Dict[str, K]
+    ctx: str
+
+
 class Closure:
     def __init__(self, fi, env):
         self.fi = fi
@@ -132,6 +142,7 @@ class Interp:
         self.prog = prog
         self.sites: Dict[Tuple, Site] = {}
         self.ann: Dict[Tuple[str, int], K] = {}
+        self.ann_entry: Dict[Tuple[str, int], K] = {}
         self._memo: Dict[Tuple, K] = {}
         self._in_progress: set = set()
         self.closures: Dict[str, Closure] = {}
@@ -139,6 +150,7 @@ class Interp:
         self.class_tables = {c: T.class_tables(c) for c in T.CONTAINERS}
         self.container_cls = {c: prog.cls(c) for c in T.CONTAINERS}
         self.analysed_functions = 0
+        self.callfacts: List[CallFact] = []
         self.call_stats = {"resolved": 0, "duck": 0, "extern": 0, "unresolved": 0}
 
     # ================================================================ declared signatures
@@ -284,9 +296,17 @@ class Interp:
         key = (fr.fi.qualname, id(node))
         old = self.ann.get(key)
         self.ann[key] = k if old is None else join(old, k)
+        if fr.ctx == "entry":
+            old = self.ann_entry.get(key)
+            self.ann_entry[key] = k if old is None else join(old, k)
 
     def kind_at(self, fi: FunctionInfo, node: ast.AST) -> K:
-        return self.ann.get((fi.qualname, id(node)), TOP)
+        """Kind of an expression: in the declared (entry) context when there is one, else joined over contexts."""
+        key = (fi.qualname, id(node))
+        k = self.ann_entry.get(key)
+        if k is None:
+            k = self.ann.get(key, TOP)
+        return k
 
     # ================================================================ statements
     def block(self, stmts, env, fr: Frame):
@@ -992,6 +1012,8 @@ class Interp:
         bound = self.bind(fi, node, args, kwargs, star_kw, fr)
         if bound is None:
             return TOP
+        if fr.record:
+            self.callfacts.append(CallFact(fr.fi, node, fi, dict(bound), {n: env[n] for n in ("order", "size", "up_to", "s", "seed") if n in env}, fr.ctx))
         defaults = fi.defaults()
         if self.is_declared(fi) and fi.cls is None:
             # module-level helper (canonicaliser / size helper): arguments are checked against the declared
@@ -1379,7 +1401,7 @@ class Interp:
 
     def _peek(self, node, env, fr) -> K:
         """Kind of an already evaluated sub-expression (no new sites)."""
-        k = self.ann.get((fr.fi.qualname, id(node)))
+        k = None
         if isinstance(node, ast.Name):
             return env.get(node.id, k if k is not None else TOP)
         if isinstance(node, ast.Constant):
